@@ -14,12 +14,25 @@ from decimal import Decimal
 from lib import common
 from lib.common import enc_list, dec_list
 
-SHAPES = [  # (number of key columns, target non-key columns, source non-key columns)
-    (1, 2, 1), (1, 2, 1), (2, 2, 2), (1, 3, 2),
+SHAPES = [  # (number of key columns, types of the target non-key columns, types of the source non-key columns); i = INT, s = VARCHAR
+    (1, "ii", "i"), (1, "ii", "i"), (2, "ii", "ii"), (1, "iii", "ii"), (1, "is", "is"),
 ]
+# VARCHAR cells/constants are drawn from this pool; the model sees the pool index (a Nat)
+POOL = ["a", "b\\c", "it's", "x;y", "C:\\new\\t", "", "-- no", "ß√"]
 
 
-def _rpn_sql(rpn: list[str], t: str, s: str, col) -> str:
+def _lit(typ: str, n: int) -> str:
+    if typ == "i":
+        return str(n)
+    return "'" + POOL[n].replace("\\", "\\\\").replace("'", "\\'") + "'"
+
+
+def _types(case):
+    nk, ntc, nsc = case["shape"]
+    return case.get("ttypes", "i" * ntc), case.get("stypes", "i" * nsc)
+
+
+def _rpn_sql(rpn: list[str], t: str, s: str, col, tt: str = "", stt: str = "") -> str:
     st = []
     for tok in rpn:
         if tok == "T":
@@ -37,7 +50,8 @@ def _rpn_sql(rpn: list[str], t: str, s: str, col) -> str:
             idx, rest = int(rest[:i]), rest[i:]
             op = ">=" if rest.startswith(">=") else "!=" if rest.startswith("!=") else rest[0]
             name = f"{t()}.{col('c' + str(idx))}" if side == "t" else f"{s()}.{col('d' + str(idx))}"
-            st.append(f"{name} {op.replace('!=', '<>')} {rest[len(op):]}")
+            typ = ((tt if side == "t" else stt) + "iiii")[idx]
+            st.append(f"{name} {op.replace('!=', '<>')} {_lit(typ, int(rest[len(op):]))}")
     assert len(st) == 1
     return st[0]
 
@@ -56,13 +70,15 @@ def _render(case, rnd) -> str:
     on = f" {kw('and')} ".join(f"{t()}.{col('k' + str(j))} = {s()}.{col('k' + str(j))}" for j in range(nk))
     parts = [f"{kw('merge into')} {t()} {kw('using')} {idc(case['source_sql'])} {kw('on')} {on}"]
 
-    def rhs(r):
-        return f"{s()}.{col('d' + r[1:])}" if r[0] == "s" else r[1:]
+    tt, stt = _types(case)
+
+    def rhs(r, typ="i"):
+        return f"{s()}.{col('d' + r[1:])}" if r[0] == "s" else _lit(typ, int(r[1:]))
 
     for c in case["clauses"]:
         f = c.split(":")
         kind, toks = f[0], f[1].split(",")
-        cond = "" if toks == ["T"] and case["omit_true"] else f" {kw('and')} {_rpn_sql(toks, t, s, col)}"
+        cond = "" if toks == ["T"] and case["omit_true"] else f" {kw('and')} {_rpn_sql(toks, t, s, col, tt, stt)}"
         if kind == "D":
             parts.append(f"{kw('when matched')}{cond} {kw('then delete')}")
         elif kind == "U":
@@ -72,11 +88,11 @@ def _render(case, rnd) -> str:
                 lhs = col("c" + j)
                 if rnd.random() < 0.3:
                     lhs = f"{t()}.{lhs}"
-                sets.append(f"{lhs} = {rhs(r)}")
+                sets.append(f"{lhs} = {rhs(r, tt[int(j)])}")
             parts.append(f"{kw('when matched')}{cond} {kw('then update set')} {', '.join(sets)}")
         else:
             names = [col("k" + str(j)) for j in range(nk)] + [col("c" + str(j)) for j in range(ntc)]
-            vals = [f"{s()}.{col('k' + str(j))}" for j in range(nk)] + [rhs(r) for r in f[2].split(",")]
+            vals = [f"{s()}.{col('k' + str(j))}" for j in range(nk)] + [rhs(r, tt[j]) for j, r in enumerate(f[2].split(","))]
             order = list(range(len(names)))
             if case["permute_insert"]:
                 random.Random(case["render_seed"] + 7).shuffle(order)
@@ -86,9 +102,10 @@ def _render(case, rnd) -> str:
 
 
 def _gen_case(rnd: random.Random, i: int) -> dict:
-    nk, ntc, nsc = rnd.choice(SHAPES)
-    t_atoms = [f"t{j}{op}" for j in range(ntc) for op in ("=0", "=1", "<2", ">=20", "!=1")]
-    s_atoms = [f"s{j}{op}" for j in range(nsc) for op in ("=0", "!=0", ">=2", "<5")] + ["T"]
+    nk, tt, stt = rnd.choice(SHAPES)
+    ntc, nsc = len(tt), len(stt)
+    t_atoms = [f"t{j}{op}" for j in range(ntc) for op in (("=0", "=1", "<2", ">=20", "!=1") if tt[j] == "i" else ("=1", "!=2", "=4"))]
+    s_atoms = [f"s{j}{op}" for j in range(nsc) for op in (("=0", "!=0", ">=2", "<5") if stt[j] == "i" else ("=1", "!=2", "=4"))] + ["T"]
 
     def cond(atoms):
         r = rnd.random()
@@ -100,8 +117,11 @@ def _gen_case(rnd: random.Random, i: int) -> dict:
             return [rnd.choice(atoms), rnd.choice(atoms), rnd.choice("&||")]
         return [rnd.choice(atoms), "!"]
 
-    def rhs():
-        return f"s{rnd.randrange(nsc)}" if rnd.random() < 0.75 else f"c{rnd.choice([0, 1, 7, 42])}"
+    def rhs(typ):
+        srcs = [j for j in range(nsc) if stt[j] == typ]
+        if srcs and rnd.random() < 0.7:
+            return f"s{rnd.choice(srcs)}"
+        return f"c{rnd.choice([0, 1, 7, 42])}" if typ == "i" else f"c{rnd.randrange(len(POOL))}"
 
     ncl = rnd.choice([1, 2, 2, 3, 3, 4])
     clauses = []
@@ -112,9 +132,9 @@ def _gen_case(rnd: random.Random, i: int) -> dict:
             clauses.append(f"D:{cnd}")
         elif k == "U":
             cols = rnd.sample(range(ntc), rnd.randint(1, ntc))
-            clauses.append(f"U:{cnd}:" + ",".join(f"{j}={rhs()}" for j in cols))
+            clauses.append(f"U:{cnd}:" + ",".join(f"{j}={rhs(tt[j])}" for j in cols))
         else:
-            clauses.append(f"I:{cnd}:" + ",".join(rhs() for _ in range(ntc)))
+            clauses.append(f"I:{cnd}:" + ",".join(rhs(tt[j]) for j in range(ntc)))
     keyvals = [1, 2, 3] if nk == 1 else [1, 2]
     allkeys = [tuple(k) for k in itertools.product(keyvals, repeat=nk)]
     mode = rnd.random()
@@ -132,11 +152,19 @@ def _gen_case(rnd: random.Random, i: int) -> dict:
     else:              # anything (often non-deterministic -> out of scope)
         tk = [rnd.choice(allkeys + [None]) for _ in range(nt)]
         sk = [rnd.choice(allkeys + [None]) for _ in range(ns)]
-    tgt = [(k, tuple([rnd.choice([0, 1, 2])] + [10 * (j + 1) + c for c in range(ntc - 1)])) for j, k in enumerate(tk)]
-    src = [(k, tuple(rnd.choice([0, 1, 2, 5, 7]) for _ in range(nsc))) for k in sk]
-    style = rnd.choice(["plain", "plain", "qualified-target", "schema-target", "subquery", "quoted", "plain", "qualified-source"])
-    tname, sname, source_sql = "t", "s", "s"
-    if style == "qualified-target":
+    def tval(j, c):
+        if tt[c] == "s":
+            return rnd.randrange(len(POOL))
+        return rnd.choice([0, 1, 2]) if c == 0 else 10 * (j + 1) + c
+    tgt = [(k, tuple(tval(j, c) for c in range(ntc))) for j, k in enumerate(tk)]
+    src = [(k, tuple(rnd.choice([0, 1, 2, 5, 7]) if stt[c] == "i" else rnd.randrange(len(POOL)) for c in range(nsc))) for k in sk]
+    style = rnd.choice(["plain", "plain", "qualified-target", "schema-target", "subquery", "quoted", "plain", "qualified-source",
+                        "other-schema-target", "other-schema-target"])
+    tname, sname, source_sql, tloc = "t", "s", "s", "db1.s1"
+    if style == "other-schema-target":
+        # the target lives outside the current schema; a same-named bystander table sits in the current schema
+        tname, tloc = rnd.choice([("s2.t", "db1.s2"), ("db1.s2.t", "db1.s2"), ("db2.s9.t", "db2.s9")])
+    elif style == "qualified-target":
         tname = "db1.s1.t"
     elif style == "schema-target":
         tname = "s1.t"
@@ -146,7 +174,7 @@ def _gen_case(rnd: random.Random, i: int) -> dict:
         source_sql = "(select * from s) as s"
     elif style == "quoted":
         tname, sname, source_sql = '"T"', '"S"', '"S"'
-    return {"id": i, "shape": (nk, ntc, nsc), "clauses": clauses, "tgt": tgt, "src": src, "style": style, "tname": tname, "sname": sname,
+    return {"id": i, "shape": (nk, ntc, nsc), "ttypes": tt, "stypes": stt, "tloc": tloc, "clauses": clauses, "tgt": tgt, "src": src, "style": style, "tname": tname, "sname": sname,
             "source_sql": source_sql, "recase": rnd.random() < 0.5, "omit_true": rnd.random() < 0.7,
             "permute_insert": rnd.random() < 0.3, "render_seed": rnd.randrange(1 << 30)}
 
@@ -165,22 +193,39 @@ def _flat(row, nk):
 
 
 def _sortkey(r):
-    return tuple((v is None, v) for v in r)
+    return tuple((v is None, isinstance(v, str), v) for v in r)
+
+
+def _unlit(typ: str, v):
+    """value read back -> the Nat the model uses (pool index for VARCHAR); unknown strings are kept as they are"""
+    if typ == "s" and isinstance(v, str):
+        return POOL.index(v) if v in POOL else v
+    return v
 
 
 def _exec_case(conn, case) -> dict:
     from snowflake.connector.cursor import DictCursor
     nk, ntc, nsc = case["shape"]
+    tt, stt = _types(case)
+    tloc = case.get("tloc", "db1.s1")
+    bloc = "db1.s2" if tloc == "db1.s1" else "db1.s1"
     cur = conn.cursor()
-    tcols = [f"k{j}" for j in range(nk)] + [f"c{j}" for j in range(ntc)]
-    scols = [f"k{j}" for j in range(nk)] + [f"d{j}" for j in range(nsc)]
-    cur.execute(f"create or replace table t ({', '.join(c + ' int' for c in tcols)})")
-    cur.execute(f"create or replace table s ({', '.join(c + ' int' for c in scols)})")
-    val = lambda v: "NULL" if v is None else str(v)  # noqa: E731
+    sqlt = {"i": "int", "s": "varchar"}
+    tcols = [f"k{j} int" for j in range(nk)] + [f"c{j} {sqlt[tt[j]]}" for j in range(ntc)]
+    scols = [f"k{j} int" for j in range(nk)] + [f"d{j} {sqlt[stt[j]]}" for j in range(nsc)]
+    ttypes, stypes = "i" * nk + tt, "i" * nk + stt
+    cur.execute(f"create or replace table {tloc}.t ({', '.join(tcols)})")
+    cur.execute(f"create or replace table {bloc}.t ({', '.join(tcols)})")
+    cur.execute("create or replace table s (" + ", ".join(scols) + ")")
+
+    def tup(r, types):
+        return "(" + ",".join("NULL" if v is None else _lit(ty, v) for v, ty in zip(_flat(r, nk), types)) + ")"
+    bystander = ((7,) * nk, tuple(3 for _ in range(ntc)))
+    cur.execute(f"insert into {bloc}.t values " + tup(bystander, ttypes))
     if case["tgt"]:
-        cur.execute("insert into t values " + ",".join("(" + ",".join(val(v) for v in _flat(r, nk)) + ")" for r in case["tgt"]))
+        cur.execute(f"insert into {tloc}.t values " + ",".join(tup(r, ttypes) for r in case["tgt"]))
     if case["src"]:
-        cur.execute("insert into s values " + ",".join("(" + ",".join(val(v) for v in _flat(r, nk)) + ")" for r in case["src"]))
+        cur.execute("insert into s values " + ",".join(tup(r, stypes) for r in case["src"]))
     sql = _render(case, random.Random(case["render_seed"]))
     out = {"sql": sql}
     dcur = conn.cursor(DictCursor)
@@ -190,10 +235,14 @@ def _exec_case(conn, case) -> dict:
         out["status"] = [{k: _num(v) for k, v in r.items()} for r in rows]
     except Exception as e:
         out["error"] = f"{type(e).__name__}: {str(e)[:200]}"
-    cur.execute("select * from t")
-    out["t"] = sorted(cur.fetchall(), key=_sortkey)
+    cur.execute(f"select * from {tloc}.t")
+    out["t"] = sorted((tuple(_unlit(ty, v) for v, ty in zip(r, ttypes)) for r in cur.fetchall()), key=_sortkey)
     cur.execute("select * from s")
-    out["s"] = sorted(cur.fetchall(), key=_sortkey)
+    out["s"] = sorted((tuple(_unlit(ty, v) for v, ty in zip(r, stypes)) for r in cur.fetchall()), key=_sortkey)
+    cur.execute(f"select * from {bloc}.t")
+    got = [tuple(_unlit(ty, v) for v, ty in zip(r, ttypes)) for r in cur.fetchall()]
+    out["bystander_ok"] = got == [_flat(bystander, nk)]
+    out["bystander"] = got
     cur.execute("show tables")
     out["tables"] = sorted(r[1] for r in cur.fetchall() if not r[1].startswith("_fs_"))
     return out
@@ -205,6 +254,10 @@ def _worker(shard):
     res = []
     with fakesnow.patch():
         conn = snowflake.connector.connect(database="db1", schema="s1")
+        c = conn.cursor()
+        c.execute("create schema if not exists db1.s2")
+        c.execute("create database if not exists db2")
+        c.execute("create schema if not exists db2.s9")
         for case in shard:
             res.append(_exec_case(conn, case))
     return res
@@ -271,6 +324,10 @@ def _judge(chk, case, real, m) -> None:
     ok_src = [tuple(r) for r in real["s"]] == src0
     if not ok_src:
         chk.violation(f"source table changed by {desc}: {real['s']}", case, broken="C12 source frame")
+        return
+    if not real.get("bystander_ok", True):
+        chk.violation(f"a same-named table in another schema was changed by {desc}: it now holds {real['bystander']}", case,
+                      broken="C12 frame (no other table changes)")
         return
     if ok_target and ok_counts:
         if m["h1"] == "1" and m["h2"] == "1" and m["same"] != "1":
